@@ -166,6 +166,11 @@ class C16(Driver):
                     tasks[-1]["x"] = False
                 tid += 1
         flavour = "asan" if r.random() < 0.15 else "plain"
+        if r.random() < 0.5:
+            for t in tasks:
+                for st in t["steps"]:
+                    if st["op"] in ("read", "chunk", "all", "write") and r.random() < 0.5:
+                        st["var"] = r.randrange(8)
         plan = {"property": "C16", "knobs": knobs, "mode": mode, "sds": sds, "tasks": tasks, "flavour": flavour}
         if mode == "single" and flavour == "plain" and r.random() < 0.2:
             for t in tasks:
@@ -351,8 +356,11 @@ class C16(Driver):
                     else:
                         conv = "(string b)" if st["as"] == "string" else "b"
                         A("  (sim/ev :inv %d %d)" % (T, k))
-                        A("  (try (do (def b (sim/fill %d off %d)) (ev/write h %s) (buffer/fill b 0) (+= off %d) (sim/ev :ret %d %d :ok)) ([e] (sim/ev :ret %d %d :err e)))"
-                          % (t["w"], st["n"], conv, st["n"], T, k, T, k))
+                        wvar = st.get("var", 0)
+                        wfam = "net" if (wvar & 1) and plan["sds"][s]["kind"] == "unix" else "ev"
+                        wtail = ""
+                        A("  (try (do (def b (sim/fill %d off %d)) (%s/write h %s%s) (buffer/fill b 0) (+= off %d) (sim/ev :ret %d %d :ok)) ([e] (sim/ev :ret %d %d :err e)))"
+                          % (t["w"], st["n"], wfam, conv, wtail, st["n"], T, k, T, k))
                 A("  (put wdone %d true)" % T)
                 if t.get("ack"):
                     A("  (sim/ev :inv %d 902) (try (let [b (ev/read h 10)] (sim/ev :ret %d 902 (if b :data :nil))) ([e] (sim/ev :ret %d 902 :err e)))" % (T, T, T))
@@ -396,8 +404,15 @@ class C16(Driver):
                             A("      (unless (= (sim/match %d off b) (length b)) (set ok false)) (+= off (length b)) (+= tot (length b)))" % W)
                             A("    (sim/ev :ret %d %d :drained tot ok nreads)) ([e] (sim/ev :ret %d %d :err e)))" % (T, k, T, k))
                         continue
-                    call = {"read": "(ev/read h %d)" % st.get("n", 0), "chunk": "(ev/chunk h %d)" % st.get("n", 0),
-                            "all": "(ev/read h :all)"}[op]
+                    # the same operation through its other spellings: the net/ aliases on sockets, a caller-supplied
+                    # buffer, a timeout that never fires
+                    var = st.get("var", 0)
+                    fam = "net" if (var & 1) and plan["sds"][s]["kind"] == "unix" else "ev"
+                    # (no timeouts here: when a plan deadlocks simulated time jumps, any finite timeout expires, and a
+                    # read that times out may have consumed bytes it does not report - the byte accounting would be off)
+                    tail = ["", " (buffer/new 16)", " @\"\"", " (buffer/new 0)"][(var >> 1) & 3]
+                    call = {"read": "(%s/read h %d%s)" % (fam, st.get("n", 0), tail), "chunk": "(%s/chunk h %d%s)" % (fam, st.get("n", 0), tail),
+                            "all": "(%s/read h :all%s)" % (fam, tail)}[op]
                     if multi_r:
                         A("  (try (let [b %s] (if b (let [o (sim/locate %d b off 200000)] (when (>= o 0) (set off (+ o (length b)))) (sim/ev :ret %d %d :seg o (length b))) (sim/ev :ret %d %d :nil))) ([e] (sim/ev :ret %d %d :err e)))"
                           % (call, W, T, k, T, k, T, k))
@@ -531,6 +546,7 @@ class C16(Driver):
             drained = False
             rops = []
             nbusy = 0
+            unaccounted = False
             for t in rts:
                 for k, st in enumerate(t["steps"]):
                     if st["op"] == "sleep" or (t["id"], k) not in inv:
@@ -552,7 +568,12 @@ class C16(Driver):
                         # reading a stream that this very task closed earlier is an error by contract;
                         # with several fibers on one stream "completes or raises an error" is the contract
                         busy = "already waiting" in " ".join(toks)
-                        if busy and mode == "multi_r":
+                        timed_out = '"timeout"' in " ".join(toks) and ((st.get("var", 0) >> 1) & 3) >= 2
+                        if timed_out:
+                            # the (very long) timeout of this spelling of the call expired because nothing ever came:
+                            # simulated time jumps when everything is blocked. Bytes it had consumed are unaccounted for.
+                            unaccounted = True
+                        elif busy and mode == "multi_r":
                             nbusy += 1
                         elif r_closed_seq is None:
                             V("C16/read/raised-error-on-open-stream/op=%s/kind=%s" % (st["op"], kind), " ".join(toks))
@@ -618,7 +639,7 @@ class C16(Driver):
                                 V("C16/bytes/not-the-written-bytes-in-order/op=drain/kind=%s/mode=%s" % (kind, mode),
                                   "drain from offset %d" % consumed)
                             consumed += n
-                            if not (lower <= consumed <= upper) and not werr:
+                            if not (lower <= consumed <= upper) and not werr and not unaccounted:
                                 V("C16/bytes/total-received-differs-from-written/kind=%s" % kind,
                                   "received %d, written between %d and %d" % (consumed, lower, upper))
                         if w_closed_seq is None and kind != "cat" and not werr:
@@ -745,6 +766,7 @@ class C16(Driver):
             s_ = t["sd"]
             rclose = None
             consumed_before = 0
+            read_failed = False
             for t2 in tasks.values():
                 if t2["role"] != "r" or t2["sd"] != s_:
                     continue
@@ -756,6 +778,8 @@ class C16(Driver):
                         rclose = r2[0]
                     elif r2[1][0] in (":data", ":drained") and (rclose is None or r2[0] < rclose):
                         consumed_before += int(r2[1][1])
+                    elif r2[1][0] == ":err":
+                        read_failed = True      # (a read that failed may have consumed bytes it did not report)
             if rclose is None:
                 continue
             written_before = 0
@@ -772,7 +796,7 @@ class C16(Driver):
             # (a spurious EAGAIN injected into the very recv that would have reported the reset leaves only the
             # EPOLLERR notification, which Janet reports as end of stream: judged in runs without that fault kind)
             spurious = any(f[0] in ("eagain_r", "eintr_r") for f in res.faults)
-            if written_before > consumed_before and not werr_any and ack[0] > rclose and ack[1][0] == ":nil" and not spurious:
+            if written_before > consumed_before and not werr_any and ack[0] > rclose and ack[1][0] == ":nil" and not spurious and not read_failed:
                 V("C16/reset/peer-closed-with-unread-input-reported-as-clean-end-of-stream",
                   "%d bytes written and acknowledged, %d read before the peer closed; the writer's read returned nil" % (written_before, consumed_before))
         # ---- half-closed sockets: a write after net/shutdown fails, it neither succeeds nor hangs ----
